@@ -22,7 +22,7 @@ import (
 func init() {
 	setTier("C06", 60000, 240, 1500000, 1800)
 	levelOf["C06"] = "exploration"
-	ruleOf["C06"] = "one run = one seeded scenario (direct or queue mode, 1-4 sender tasks x 2-6 sends of unique packs of mixed type/size/license, 0-3 seeded connection faults) under one seeded schedule, followed by a heal-and-recover phase; oracles O1-O7 over the bytes each simulated connection received, parsed by an independent frame parser; non-trivial = a context switch inside a send or at least one fired fault; distinct = distinct fingerprint of (switch sequence, fault sequence, per-send outcome, received frame order)"
+	ruleOf["C06"] = "one run = one seeded scenario (direct or queue mode, 1-4 sender tasks x 2-6 sends of unique packs of mixed type/size/license, 0-3 seeded connection faults) under one seeded schedule, followed by a heal-and-recover phase; oracles O1-O7 over the bytes each simulated connection received, parsed by an independent frame parser (plus, since later waves: quiet periods beyond the 60 s time-outs, frames within a few bytes of the 2 MiB write buffer, a slow collector that is not a fault, an application-level Close after the senders); non-trivial = a context switch inside a send or at least one fired fault; distinct = distinct fingerprint of (switch sequence, fault sequence, per-send outcome, received frame order)"
 	assumptionsOf["C06"] = []string{
 		"TCP is modelled by simnet: a passive collector per accepted connection; faults = dial refused/timeout, peer close (FIN) at a stream offset or while idle, peer reset at a stream offset (mid-write possible), first write after FIN accepted and lost, stalled reader with a 64 KiB send buffer and the client's own write deadline",
 		"preemption between any two statements of net/oneway, util/queue, util/list, util/dateutil and inside lock, sleep and network operations",
@@ -32,7 +32,7 @@ func init() {
 	}
 	realComponents["C06"] = []string{"net/oneway.OneWayTcpClient (public API, singleton via GetOneWayTcpClient/Destroy)", "bufio.Writer", "pack encoders (TextPack, LogSinkPack, TagCountPack)", "io.DataOutputX", "util/queue.RequestQueue", "util/hash.Hash64Str"}
 	stubComponents["C06"] = []string{"net.DialTimeout/net.Conn (simnet)", "collector peer (passive sink + independent frame parser)", "sync.Mutex/Cond", "time (virtual clock)", "goroutine scheduler"}
-	probesFor["C06"] = []string{"reconnect_happened", "fault_mid_frame", "blocked_on_lock_held_inside_op", "queue_refused_put", "frame_larger_than_buffer", "peer_reset_mid_stream", "write_after_close_lost", "dial_refused", "recovered_after_heal"}
+	probesFor["C06"] = []string{"collector_slow", "client_closed_by_application", "reconnect_happened", "fault_mid_frame", "blocked_on_lock_held_inside_op", "queue_refused_put", "frame_larger_than_buffer", "peer_reset_mid_stream", "write_after_close_lost", "dial_refused", "recovered_after_heal"}
 	register(&Scenario{Prop: "C06", Name: "healthy", MaxSteps: 3000000, Body: c06Body(false), After: c06After, Quanta: []int64{1000, 5000, 20000}})
 	register(&Scenario{Prop: "C06", Name: "faults", MaxSteps: 3000000, Body: c06Body(true), After: c06After, Quanta: []int64{1000, 5000, 20000}})
 }
